@@ -221,7 +221,11 @@ func (g *genC11) Block(w *World, b int) Block {
 			add(legit)
 		}
 		// part B
-		switch rng.Intn(9) {
+		switch rng.Intn(11) {
+		case 9: // spelling variants of somebody else's feed name
+			add(txStep(mkOp("oracle_create", X).withS("name", rng.PickS("VFeed", "vfeed ", " vfeed", "VFEED", "vfeed\t", "vfeed/"))))
+		case 10:
+			add(txStep(mkOp("oracle_update", X).withS("name", rng.PickS("VFeed", "vfeed ", "VFEED")).withS("data", `{"price":"667"}`)))
 		case 0:
 			add(txStep(mkOp("oracle_update", X).withS("name", "vfeed").withS("data", `{"price":"666"}`)))
 		case 1:
